@@ -70,7 +70,7 @@ def _entangling_features(r):
 
 @st.composite
 def _dm_case(draw, qudits=False):
-    r = draw(MC.meas_circuit_recipes(max_w=3, max_ops=9, qudits=qudits, channels=True, max_branches=16, pauli_meas=False))
+    r = draw(MC.meas_circuit_recipes(max_w=3, max_ops=9, qudits=qudits, channels=True, max_branches=16, pauli_meas=False, ch_weight=4))
     n = len(r["dims"])
     r["order"] = list(draw(st.permutations(list(range(n)))))
     r["split"] = draw(st.booleans())
@@ -231,7 +231,7 @@ KNOWN_FEATURES = {
 
 @st.composite
 def _traj_case(draw):
-    r = draw(MC.meas_circuit_recipes(max_w=3, max_ops=8, channels=True, max_branches=8, confusion=False, pauli_meas=False))
+    r = draw(MC.meas_circuit_recipes(max_w=3, max_ops=8, channels=True, max_branches=8, confusion=False, pauli_meas=False, ch_weight=4))
     n = len(r["dims"])
     r["order"] = list(draw(st.permutations(list(range(n)))))
     r["split"] = draw(st.booleans())
@@ -640,7 +640,7 @@ SUBCHECKS = [
     SubCheck("dm", _dm_case(), oracle_dm, quick=3000, thorough=15000, shards_quick=6, essential={"nonunital": 0.04}),
     SubCheck("dm_qudit", _dm_case(qudits=True), oracle_dm, quick=300, thorough=4000, shards_quick=2),
     SubCheck("dephased", _dephased_case(), oracle_dephased, quick=1000, thorough=6000, shards_quick=2),
-    SubCheck("trajectories", _traj_case(), oracle_traj, quick=1500, thorough=8000, shards_quick=4),
+    SubCheck("trajectories", _traj_case(), oracle_traj, quick=1500, thorough=8000, shards_quick=8),
     SubCheck("representations", _reps_strategy(), oracle_reps, quick=3000, thorough=30000, shards_quick=3),
     SubCheck("noise_device", _device_noise_case(), oracle_device_noise, quick=400, thorough=4000, shards_quick=2),
     SubCheck("noise_models", _noise_case(), oracle_noise, quick=1200, thorough=5000, shards_quick=4),
